@@ -119,7 +119,7 @@ def check_unary(ctx, dom, cfp, P, rp, fam, two_t_curve):
     A = build(cfp, P, rp, rng)
     sa = points.src(A)
     # double
-    if A is not INFINITY:
+    if A is not INFINITY and rp != "INFcopy":     # -INFINITY itself is undefined in the library; the sentinel has no unary ops to judge
         ctx.case("double", key=key, sample=dict(curve=c.key(), A=sa, expected=c.dbl(P)) if ctx.want("double") else None)
         try:
             bad = judge_point(A.double(), c.dbl(P), p)
@@ -129,7 +129,7 @@ def check_unary(ctx, dom, cfp, P, rp, fam, two_t_curve):
             ctx.violation(mech("double_wrong", tt, "double|%s|%s" % (rep_class(rp), tpat(P, c.dbl(P)))), "%s: %s.double(): %s (p=%d a=%d b=%d)" % (fam, sa, bad, p, c.a, c.b),
                           dict(curve=c.key(), P=P, rep=rp, expected=c.dbl(P)), _rp(dom, ["%s.double()" % sa]))
     # negation
-    if A is not INFINITY:
+    if A is not INFINITY and rp != "INFcopy":     # -INFINITY itself is undefined in the library; the sentinel has no unary ops to judge
         ctx.case("neg", key=key)
         try:
             bad = judge_point(-A, c.neg(P), p)
